@@ -1112,7 +1112,9 @@ class C35(Prop):
                   'lifted binding is referenced from inside an If branch that does not contain it; (d) both programs evaluated on sampled '
                   'environments.  Programs whose lifted bindings sit inside aggregation queries (AggLet bindings, lets inside StreamAgg '
                   'queries) are outside the proved validator and are compared by (b)-(d) only; both counts are in the evidence.  No '
-                  'theorem is claimed about the renderer\'s stack machine itself (the spec-level `cse` of DESIGN.md was not built).')
+                  'theorem is claimed about the renderer\'s stack machine itself: at the specification level only ONE lifting step is proved '
+                  'meaning-preserving (cse_step_preserves: binding any subterm once above a site and replacing its occurrences, except below '
+                  'binders that rebind its variables); that the stack machine iterates exactly such steps is not proved.')
     level_note = ('What is proved is about the model: substitution lemma, soundness of the validator, soundness+completeness of the scope '
                   'checker.  What ties it to the code is per-program checking of the real renderer\'s output on generated DAGs only. '
                   'The meaning of IR nodes (eval) is written from the node classes — there is no engine to compare with; failures are '
